@@ -54,6 +54,13 @@ def explore(ctx, depth):
     docrun.run_option_sets(ctx, cases, [{'enc': None, 'include': None, 'exclude': None}], lambda case: [{}],
                            'default export is not the source grid minus comment lines and all-null lines, cell for cell', 'default export')
 
+    # texts outside the generator's grammar (`*+` with a `**` cell below the first line, blank lines, `**` cells inside a spine): no grid oracle;
+    # the real export against the model and against the Lean specification of dumps(loads(text)) (C03_export_of_text quantifies over every text)
+    rcases = [c for c in docrun.raw_cases(ctx, [c.adoc for c in cases[:8 if depth == 'quick' else 80]]) if c.doc is not None]
+    docrun.run_option_sets(ctx, rcases, [{'enc': None, 'include': None, 'exclude': None}], lambda case: [{}],
+                           'default export of a text outside the generator\'s grammar is not what the model / the text specification says', 'raw text: default export',
+                           spec=False, nontriv=lambda *a: True)
+
 
     frontier(ctx, depth)
 
